@@ -36,3 +36,40 @@ Proof. vm_compute. split; reflexivity. Qed.
 (* the guard the tree was first found with (finding F5) is NOT equivalent *)
 Theorem C13_truncated_guard_refuted : exists st, xsum32_g true st <> xsum32_g false st.
 Proof. exists f5_state. exact truncated_guard_differs. Qed.
+
+(* ==== the same property for the code AS TRANSLATED from internal/xxh32/xxh32zero.go on this run ====
+   GenXXHBody.v is regenerated from the Go source by gen/body.go (statement by statement, over the Go
+   semantics of GoT.v); the theorems below are about those translated functions, not about a hand model. *)
+From LZ4V Require Import GoT GenXXHBody GenXXHBodySpec GenXXHBodyProofs.
+
+(* checksumZeroGo: for every byte string shorter than 2^63 (any Go slice), any spare capacity of the
+   argument slice, any prior contents of the frame, enough fuel: no panic, no hang, and the result is
+   reference XXH32 *)
+Theorem C13_translated_oneshot : forall (input spare : list Z) (s0 : state) (fuel : nat),
+  len input < 2 ^ 63 -> (length input / 16 + 4 <= fuel)%nat ->
+  exists s', xxh32_checksumZeroGo fuel (init_xxh32_checksumZeroGo_fresh input spare s0) = Ret s'
+             /\ checksumZeroGo_ret0 s' = xxh32_ref input.
+Proof. exact checksumZeroGo_ref. Qed.
+Print Assumptions C13_translated_oneshot.
+
+(* XXHZero.Write / Sum32, from the zero value of the struct: ANY split into writes (each a Go slice with
+   any spare capacity), total below 2^64: every Write returns normally, Sum32 returns reference XXH32 of
+   the concatenation *)
+Theorem C13_translated_stream : forall (fuel : nat) (chunks : list (list Z * list Z)) (s0 : state),
+  Forall (chunk_ok fuel) chunks -> (4 <= fuel)%nat ->
+  len (concat (map fst chunks)) < 2 ^ 64 ->
+  exists s1 s2,
+    run_writes fuel chunks (zero_XXHZero s0) = Ret s1 /\
+    xxh32_XXHZero_Sum32 fuel s1 = Ret s2 /\
+    XXHZero_Sum32_ret0 s2 = xxh32_ref (concat (map fst chunks)).
+Proof. exact stream_correct. Qed.
+Print Assumptions C13_translated_stream.
+
+(* one step: the translated Write refines the model's xwrite on every well-formed state, and Sum32 is an
+   observation (it does not change the abstract state) *)
+Theorem C13_translated_write : XXHZero_Write_correct_stmt.  Proof. exact XXHZero_Write_correct_ok. Qed.
+Print Assumptions C13_translated_write.
+Theorem C13_translated_sum32 : XXHZero_Sum32_correct_stmt.  Proof. exact XXHZero_Sum32_correct_ok. Qed.
+Print Assumptions C13_translated_sum32.
+Theorem C13_translated_reset : XXHZero_Reset_correct_stmt.  Proof. exact XXHZero_Reset_correct_ok. Qed.
+Print Assumptions C13_translated_reset.
